@@ -34,7 +34,7 @@ func ho17Classes(v string, def spg.CTFlag) spg.CTFlag {
 var ho17Separators = []string{"", "hyphen", "space", "comma", "period", "underscore", "digit", "none", "bogus"}
 var ho17SepChars = map[string]string{"": "-", "hyphen": "-", "space": " ", "comma": ",", "period": ".", "underscore": "_", "none": "", "bogus": ""}
 var ho17Schemes = []string{"", "none", "first", "all", "random", "one", "bogus"}
-var ho17Files = []string{"", "uno dos tres\n", "uno\ndos\nuno\ntres\n", "solo", "@long-line@"}
+var ho17Files = []string{"", "uno dos tres\n", "uno\ndos\nuno\ntres\n", "solo", "@long-line@", "Polish polish uno\n", "polish Polish 4ever\n"}
 
 // ho17File: the content of word file i; the last one is a 12 000-word list kept
 // on one line of more than 64 KiB, followed by a short line.
@@ -308,6 +308,44 @@ func HO17w() {
 	if entropy {
 		vAssert(exit == 0, "opgen --entropy does not exit 0")
 		ho17Validate(stdout, func(s string) bool { return s == fmt.Sprintf("%.2f", ref.Entropy()) }, "opgen --entropy does not print the library recipe's entropy to two decimals")
+		if file != "" && len(words) < 50 {
+			// and that number is what the documentation says, computed from the file itself
+			var kept []string
+			allCap := true
+			for _, w := range words {
+				dup, twin := false, false
+				for _, k := range kept {
+					if k == w {
+						dup = true
+					}
+				}
+				for _, u := range words {
+					if u != w && strings.Title(u) == w {
+						twin = true
+					}
+				}
+				if !dup && !twin {
+					kept = append(kept, w)
+					if strings.Title(w) == w {
+						allCap = false
+					}
+				}
+			}
+			want := float64(size) * math.Log2(float64(len(kept)))
+			if allCap {
+				switch scheme {
+				case "random":
+					want += float64(size)
+				case "one":
+					want += math.Log2(float64(size))
+				}
+			}
+			if sep == "digit" {
+				want += float64(size-1) * math.Log2(10)
+			}
+			got, _ := strconv.ParseFloat(strings.TrimSpace(stdout), 64)
+			vAssert(math.Abs(got-want) <= 0.011, "the entropy opgen prints for a word file is not size*log2(distinct words without capitalised twins) plus the documented terms")
+		}
 		vReach("entropy")
 		return
 	}
